@@ -1,11 +1,12 @@
 package main
 
 // C02 — loading resolves every $ref to exactly the object it designates.
-// Real code exercised: openapi3.Loader (LoadFromFile / LoadFromDataWithPath / LoadFromData / LoadFromURI)
+// Real code exercised: openapi3.Loader (LoadFromFile / LoadFromDataWithPath / LoadFromData / LoadFromIoReader / LoadFromURI)
 // with an in-memory ReadFromURIFunc over generated multi-file layouts. Observed: the load error, and
 // Value (canonical JSON) of every *Ref / $ref path item reachable from the returned *T.
 
 import (
+	"bytes"
 	"encoding/json"
 	"fmt"
 	"net/url"
@@ -231,6 +232,13 @@ func c02Sorted[E any](m map[string]E) []string {
 	return out
 }
 
+func c02ListAt(v any, i int) any {
+	if l := jlist(v); i < len(l) {
+		return l[i]
+	}
+	return nil
+}
+
 // c02Loads: the loads of a case — the short form {entry, root} is a history of one load
 func c02Loads(c hx.Case) [][2]string {
 	ls := jlist(c["loads"])
@@ -299,8 +307,12 @@ func runC02(c hx.Case) any {
 	loads := []any{}
 	for _, ep := range epochs {
 		c02SetStore(ep)
-		for _, ld := range c02Loads(hx.Case(ep)) {
+		for li, ld := range c02Loads(hx.Case(ep)) {
 			entry, root := ld[0], ld[1]
+			via := "" // "reader": the data load goes through LoadFromIoReader (which hands over to LoadFromData)
+			if lm, ok := c02ListAt(ep["loads"], li).(map[string]any); ok {
+				via = jstr(lm, "via")
+			}
 			var doc *openapi3.T
 			var err error
 			switch entry {
@@ -317,7 +329,11 @@ func runC02(c hx.Case) any {
 				if !ok {
 					d = virtual[""]
 				}
-				doc, err = l.LoadFromData(d)
+				if via == "reader" {
+					doc, err = l.LoadFromIoReader(bytes.NewReader(d))
+				} else {
+					doc, err = l.LoadFromData(d)
+				}
 			}
 			if err != nil {
 				loads = append(loads, map[string]any{"outcome": "err", "error": err.Error(), "refs": map[string]any{}})
@@ -1357,7 +1373,18 @@ func c02ShapesRound5(emit func(hx.Case)) {
 						l.loads = [][2]string{{e, p}}
 						eps = append(eps, l)
 					}
-					emit(c02EpochCase(eps...))
+					c := c02EpochCase(eps...)
+					if (ki+i+j)%2 == 0 {
+						// the rarely used entry point: data loads go through LoadFromIoReader
+						for _, ep := range c["epochs"].([]any) {
+							for _, ld := range ep.(map[string]any)["loads"].([]any) {
+								if lm := ld.(map[string]any); lm["entry"] == "data" {
+									lm["via"] = "reader"
+								}
+							}
+						}
+					}
+					emit(c)
 				}
 			}
 		}
